@@ -1,5 +1,5 @@
 """C01 — program-level three-way comparison (Go interpreter, Lean model evaluator, Lean spec semantics)."""
-from props import progs
+from props import progs, sites
 from props.progs import replay  # noqa
 
 GEN = 'expr'
@@ -18,6 +18,7 @@ PARTIAL = "arithmetic itself and decimal→double rounding are the runtime's (Nu
 
 
 def run(ctx):
+    sites.report(ctx)   # regenerated site inventory vs the modelled sites (diagnosis of a broken obligation; DESIGN §12)
     g = progs.G(ctx.rng)
     n = ctx.n(2500, 60000)
     ps = [g.expr_program(ctx.rng.choice([1, 2, 3, 3, 4, 5, 6])) for _ in range(n)]
